@@ -266,3 +266,123 @@ def arms_by_variant(m):
         for v, p in pat_variants(a["pat"]):
             out.setdefault(last_seg(v), []).append((a, p))
     return out
+
+
+def show(e):
+    """Compact, whitespace-free rendering of an expression / pattern node, for comparing two expressions structurally."""
+    if e is None:
+        return ""
+    if isinstance(e, str):
+        return e
+    k = e.get("k")
+    a = lambda xs: ",".join(show(x) for x in xs)
+    if k == "Path" or k == "PPath":
+        return e["path"]
+    if k == "PIdent":
+        return e["name"]
+    if k == "MethodCall":
+        return f"{show(e['recv'])}.{e['method']}({a(e['args'])})"
+    if k == "Call":
+        return f"{show(e['func'])}({a(e['args'])})"
+    if k == "Field":
+        return f"{show(e['base'])}.{e['member']}"
+    if k == "Lit":
+        return repr(e.get("v")) if e.get("t") == "str" else str(e.get("v"))
+    if k == "PLit":
+        return show(e["lit"])
+    if k == "Unary":
+        return e["op"] + show(e["expr"])
+    if k == "Binary":
+        return f"({show(e['left'])}{e['op']}{show(e['right'])})"
+    if k == "Ref":
+        return "&" + ("mut " if e.get("mut") else "") + show(e["expr"])
+    if k == "Macro":
+        return f"{e.get('name')}!({a(e.get('args', []))})"
+    if k == "Closure":
+        return f"|{a(e['inputs'])}|{show(e['body'])}"
+    if k == "Index":
+        return f"{show(e['base'])}[{show(e['index'])}]"
+    if k in ("Tuple", "PTuple"):
+        return "(" + a(e["elems"]) + ")"
+    if k == "PTupleStruct":
+        return e["path"] + "(" + a(e["elems"]) + ")"
+    if k == "Array":
+        return "[" + a(e["elems"]) + "]"
+    if k == "Try":
+        return show(e["expr"]) + "?"
+    if k == "Cast":
+        return f"({show(e['expr'])} as {e['ty']})"
+    if k == "Block":
+        return "{" + ";".join(show(x) for x in e["stmts"]) + "}"
+    if k == "Let":
+        return f"let {show(e['pat'])}={show(e.get('init'))}"
+    if k == "LetCond":
+        return f"let {show(e['pat'])}={show(e['expr'])}"
+    if k == "If":
+        return f"if {show(e['cond'])}{show(e['then'])}" + (f"else{show(e['else'])}" if e.get("else") else "")
+    if k == "Struct":
+        return e["path"] + "{" + ",".join(f"{f['name']}:{show(f['expr'])}" for f in e["fields"]) + "}"
+    if k == "Return":
+        return "return " + show(e.get("expr"))
+    if k == "Assign":
+        return f"{show(e['left'])}={show(e['right'])}"
+    if k == "PWild":
+        return "_"
+    if k == "Range":
+        return f"{show(e.get('start'))}{e.get('limits')}{show(e.get('end'))}"
+    if k == "For":
+        return f"for {show(e['pat'])} in {show(e['iter'])}{show(e['body'])}"
+    if k == "Match":
+        return f"match {show(e.get('expr') or e.get('scrutinee'))}{{..}}"
+    if k == "Other":
+        return norm(e.get("t", ""))
+    return f"<{k}>"
+
+
+def lets(node):
+    """all `let` statements under node, in source order: (line, bound names, pattern, init)"""
+    out = []
+    for n in walk(node):
+        if n.get("k") == "Let":
+            out.append((n["l"], [x["name"] for x in walk(n["pat"]) if x.get("k") == "PIdent"], n["pat"], n.get("init")))
+    out.sort(key=lambda x: x[0])
+    return out
+
+
+def placeholders(template):
+    """inline `{name}` / `{name:fmt}` captures of a format string (escaped braces skipped); returns [(name, offset)]"""
+    out = []
+    i = 0
+    while i < len(template):
+        c = template[i]
+        if c in "{}" and template[i:i + 2] == c * 2:
+            i += 2
+            continue
+        if c == "{":
+            j = template.index("}", i)
+            out.append((template[i + 1:j].split(":")[0].strip(), i))
+            i = j + 1
+            continue
+        i += 1
+    return out
+
+
+def render(template, ph=lambda n: f"__PH_{n}__"):
+    """the text a format string produces, with each capture replaced by ph(name) and escaped braces unescaped"""
+    out = []
+    i = 0
+    while i < len(template):
+        c = template[i]
+        if c in "{}" and template[i:i + 2] == c * 2:
+            out.append(c)
+            i += 2
+            continue
+        if c == "{":
+            j = template.index("}", i)
+            out.append(ph(template[i + 1:j].split(":")[0].strip()))
+            i = j + 1
+            continue
+        out.append(c)
+        i += 1
+    return "".join(out)
+
